@@ -103,11 +103,48 @@ def showErr : Err → String
   | .existingArgument => "ExistingArgument"
   | .syntaxError => "SyntaxError"
 
-def flags? (s : String) : Option Opts :=
+/-- two or three digits: inject_to_varkw, hide_wrapped, [how many times wraps is stacked, default 1] -/
+def flags? (s : String) : Option (Opts × Nat) :=
   match s.toList with
   | [a, b] =>
-    if (a = '0' ∨ a = '1') ∧ (b = '0' ∨ b = '1') then some ⟨a = '1', b = '1'⟩ else none
+    if (a = '0' ∨ a = '1') ∧ (b = '0' ∨ b = '1') then some (⟨a = '1', b = '1'⟩, 1) else none
+  | [a, b, c] =>
+    if (a = '0' ∨ a = '1') ∧ (b = '0' ∨ b = '1') ∧ '1' ≤ c ∧ c ≤ '9' then
+      some (⟨a = '1', b = '1'⟩, c.toNat - '0'.toNat) else none
   | _ => none
+
+/-- `wraps` applied again on top of `w` (plain), `n` more times; newest first -/
+def stackUp (o : Opts) : Nat → List Func → Except Err (List Func)
+  | 0, ws => .ok ws
+  | _, [] => .ok []
+  | n + 1, w :: ws =>
+    match updateWrapper w [] [] o with
+    | .ok w' => stackUp o n (w' :: w :: ws)
+    | .error e => .error e
+
+/-- a call travelling down a stack of wrappers (each user wrapper calls the next function with
+    what it received); result = what the innermost user wrapper receives -/
+def travel : List Func → Call → Option Call
+  | [], c => some c
+  | w :: ws, c => match callWrapper w c with
+    | some c' => travel ws c'
+    | none => none
+
+def outcomeStack (f : Func) (ws : List Func) (plain : Bool) (c : Call) : String :=
+  match ws with
+  | [] => "?"
+  | top :: _ =>
+    match bind (sigOf top) c with
+    | none => "E"
+    | some _ =>
+      match travel ws c with
+      | none => "?"
+      | some c' =>
+        if plain then
+          match bind (sigOf f) c' with
+          | none => s!"R{showCall c'}=E"
+          | some b => s!"R{showCall c'}=B{showBound b}"
+        else s!"R{showCall c'}"
 
 def bop? (s : String) : Option BOp :=
   let rest := (s.drop 1).toString
@@ -158,13 +195,17 @@ def handle (line : String) : String :=
     | some a, some d, some va, some ko, some kd, some vk, some an, some rt, some asy, some doc,
       some md, some inj, some exp, some o, some calls =>
       let f : Func := ⟨1, 1, doc, md, a, va, ko, vk, d, kd, an, rt, asy != 0, none, []⟩
-      match updateWrapper f inj exp o with
+      match updateWrapper f inj exp o.1 with
       | .error e => s!"err {showErr e}"
-      | .ok w =>
+      | .ok w1 =>
+      match stackUp o.1 (o.2 - 1) [w1] with
+      | .error e => s!"err {showErr e}"
+      | .ok [] => "bad-op"
+      | .ok (w :: ws) =>
         let plain := inj.isEmpty && exp.isEmpty
         let anns := ",".intercalate ((paramNames w).map fun n => s!"{n}:{showOpt (get? n w.ann)}")
         let fb := FB.fromFunc w
-        let outs := calls.map (outcome f w plain)
+        let outs := calls.map (outcomeStack f (w :: ws) plain)
         let asyS := if w.isAsync then "1" else "0"
         s!"S {showSig (sigOf w)} ; M {w.name} {showOpt w.doc} {showOpt w.module} {showOpt w.wrapped} {asyS} ; A {anns} r:{showOpt w.retAnn} ; D {showSpecs fb.sigSpecs} ; I {showSpecs w.body} ; {",".intercalate outs}"
     | _, _, _, _, _, _, _, _, _, _, _, _, _, _, _ => "bad-op"
